@@ -38,13 +38,20 @@ Section Containers.
   (* std::vector/deque/list::resize(n) *)
   Definition resize (n : nat) (l : list A) : list A := firstn n l ++ repeat dflt (n - length l).
 
-  (* for (it = begin; it != end && !IsEnd(); ++it, ++loadedItems) Serialize(scope, *it);
+  (* the body of the first loop since 772314c:
+       if (!Serialize(scope, *it)) { if constexpr (std::is_move_assignable_v<value_type>) *it = value_type(); }
+     [assignable] is that compile-time property of the element type *)
+  Definition reset_unloaded (assignable : bool) (c : A) (d : D) (s : S) : outcome (A * bool * S) :=
+    '(v, ld, s1) <- el c d s ;;
+    Ok (if (assignable && negb ld)%bool then dflt else v, ld, s1).
+
+  (* for (it = begin; it != end && !IsEnd(); ++it, ++loadedItems) <body>;
      returns the whole container (overwritten prefix ++ untouched tail), the unread data, loadedItems *)
-  Fixpoint load_existing (cont : list A) (data : list D) (s : S) : outcome (list A * list D * nat * S) :=
+  Fixpoint load_existing (assignable : bool) (cont : list A) (data : list D) (s : S) : outcome (list A * list D * nat * S) :=
     match cont, data with
     | c :: cont', d :: data' =>
-        '(v, _, s1) <- el c d s ;;
-        '(r, rest, n, s2) <- load_existing cont' data' s1 ;;
+        '(v, _, s1) <- reset_unloaded assignable c d s ;;
+        '(r, rest, n, s2) <- load_existing assignable cont' data' s1 ;;
         Ok (v :: r, rest, Datatypes.S n, s2)
     | _, _ => Ok (cont, data, O, s)
     end.
@@ -59,28 +66,28 @@ Section Containers.
         Ok (v :: r, Datatypes.S n, s2)
     end.
 
-  Definition load_loops (cont0 : list A) (data : list D) (s : S) : outcome (list A * S) :=
-    '(cont1, rest, n1, s1) <- load_existing cont0 data s ;;
+  Definition load_loops (assignable : bool) (cont0 : list A) (data : list D) (s : S) : outcome (list A * S) :=
+    '(cont1, rest, n1, s1) <- load_existing assignable cont0 data s ;;
     '(app, n2, s2) <- load_appended rest s1 ;;
     Ok (resize (n1 + n2) (cont1 ++ app), s2).         (* cont.resize(loadedItems) *)
 
   (* Detail::SerializeContainer (vector, deque, list; queue/stack/priority_queue through GetBaseContainer) *)
-  Definition load_seq (prior : list A) (est : nat) (data : list D) (s : S) : outcome (list A * S) :=
+  Definition load_seq (assignable : bool) (prior : list A) (est : nat) (data : list D) (s : S) : outcome (list A * S) :=
     let cont0 := if Nat.eqb est 0 then prior else resize est prior in
-    load_loops cont0 data s.
+    load_loops assignable cont0 data s.
 
   (* SerializeArray(std::forward_list): resize(estimate), or seed one element when empty; the
      emplace_after(LastIt) of the second loop always appends behind the last element because the
      container is non-empty when that loop runs *)
-  Definition load_fwd (prior : list A) (est : nat) (data : list D) (s : S) : outcome (list A * S) :=
+  Definition load_fwd (assignable : bool) (prior : list A) (est : nat) (data : list D) (s : S) : outcome (list A * S) :=
     let cont0 := if Nat.eqb est 0
                  then match prior with [] => resize 1 prior | _ => prior end
                  else resize est prior in
-    load_loops cont0 data s.
+    load_loops assignable cont0 data s.
 
   (* SerializeArray(std::valarray): loads a temporary std::vector, then copies *)
-  Definition load_valarray (prior : list A) (est : nat) (data : list D) (s : S) : outcome (list A * S) :=
-    load_seq [] est data s.
+  Definition load_valarray (assignable : bool) (prior : list A) (est : nat) (data : list D) (s : S) : outcome (list A * S) :=
+    load_seq assignable [] est data s.
 
   (* Detail::SerializeFixedSizeArray: the size check comes after the loop *)
   Fixpoint load_fixed (cont : list A) (data : list D) (s : S) : outcome (list A * S) :=
@@ -93,18 +100,15 @@ Section Containers.
     | _, _ => Exc EOutOfRange
     end.
 
-  (* Detail::SerializeSetImpl: cont.clear(); while (!IsEnd()) { TValue value; Serialize(scope, value);
-     hint = cont.insert(hint, std::move(value)); }   [scalar]: TValue is a fundamental type, so
-     "TValue value;" is indeterminate and inserting it unwritten is undefined behaviour *)
+  (* Detail::SerializeSetImpl: cont.clear(); while (!IsEnd()) { TValue value{}; Serialize(scope, value);
+     hint = cont.insert(hint, std::move(value)); }   (the result of Serialize is not looked at) *)
   Variable set_insert : A -> list A -> list A.
-  Variable scalar : bool.
   Fixpoint load_set_loop (data : list D) (cont : list A) (s : S) : outcome (list A * S) :=
     match data with
     | [] => Ok (cont, s)
     | d :: data' =>
-        '(v, ld, s1) <- el dflt d s ;;
-        if scalar && negb ld then Exc EUninit
-        else load_set_loop data' (set_insert v cont) s1
+        '(v, _, s1) <- el dflt d s ;;
+        load_set_loop data' (set_insert v cont) s1
     end.
   Definition load_set (prior : list A) (data : list D) (s : S) : outcome (list A * S) :=
     load_set_loop data [] s.
@@ -420,12 +424,13 @@ Definition lift {X} (o : outcome (X * bool)) : outcome (X * bool * unit) :=
   '(v, ld) <- o ;; Ok (v, ld, tt).
 Definition unstate {X} (o : outcome (X * unit)) : outcome X := '(v, _) <- o ;; Ok v.
 
-(* dispatch of the sequence kinds to their SerializeArray overload *)
+(* dispatch of the sequence kinds to their SerializeArray overload; every element type of the
+   universe below is move-assignable *)
 Definition seq_load {A D S} (k : seqkind) (el : A -> D -> S -> outcome (A * bool * S)) (dflt : A) :=
   match k with
-  | SFwdList => load_fwd el dflt
-  | SValarray => load_valarray el dflt
-  | _ => load_seq el dflt
+  | SFwdList => load_fwd el dflt true
+  | SValarray => load_valarray el dflt true
+  | _ => load_seq el dflt true
   end.
 
 (* Serialize(archive, value) for every type of the universe.  Returns the new target and the
@@ -473,7 +478,7 @@ Fixpoint load (a : arch) (pl : pols) (t : ty) {struct t} : tval t -> doc -> outc
       | None => Ok (p, false)
       | Some (_, ds) =>
           r <- unstate (load_set (fun x di (_ : unit) => lift (load_key a pl kt x di)) (tkey_default kt)
-                                 (set_ins kt multi) (match kt with KInt => true | KStr => false end) p ds tt) ;;
+                                 (set_ins kt multi) p ds tt) ;;
           Ok (r, true)
       end
   | TMap kt t' => fun p d =>
@@ -815,7 +820,7 @@ Section ClassLoader.
                         '(x1, c2) <- load_fields fs (path ++ slash ++ dec_N (N.of_nat (fst id)))%list x ms c' ;;
                         Ok (x1, true, c2)
                     end)
-                 (fsdefault fs) v est (number_from (first_index a) ds) c ;;
+                 (fsdefault fs) true v est (number_from (first_index a) ds) c ;;
             Ok (r, true, c1)
         end
     | FMapObj fs => fun v d c =>
